@@ -427,7 +427,7 @@ def opDot (req : Json) : Json :=
       match rj.getObjVal? "mode" with
       | .ok (.arr a) => some (.mode (a.toList.map rcmdOf) (jnat rj "reps"))
       | _ => none
-  Json.mkObj [("execs", Json.arr ((dotExecs rep (jnat req "count")).map rcmdJson).toArray)]
+  Json.mkObj [("execs", Json.arr ((dotExecsA (fun _ => jbool req "fails") rep (jnat req "count")).map rcmdJson).toArray)]
 
 namespace VicJ
 open Vicut.Vic
